@@ -112,6 +112,22 @@ def scenario(mode, selected, cut, ending):
     bad = {}
     ep = Endpoint(mode)
     try:
+        if ending == "disable-during-connected-handler":
+            # the application's handler of 'connected' is still running (it is released half a second later) when disable()
+            # is called: the thread that connected / accepted is alive but past its stop-flag checks (D46, seed C09-L)
+            entered, release = threading.Event(), threading.Event()
+            ep.proto.events.connected += lambda _d: (entered.set(), release.wait(3.0))
+            s0 = ep.peer_connect()
+            if s0 is None or not entered.wait(4.0):
+                bad["scenario-runs"] = "the endpoint did not report the connection"
+                return bad
+            threading.Timer(0.5, release.set).start()
+            ok, _ = with_timeout(ep.proto.disable, 8.0)
+            if not ok:
+                bad["disable-returns"] = f"disable() called during a 'connected' handler did not return within 8 s (state {ep.state()})"
+            release.set()
+            s0.close()
+            return bad
         if ending == "connect-and-close-at-once":
             # the peer closes before the endpoint has finished handling 'connected' (an application handler of that event
             # takes a moment): the link loss is handled while the accept is still in progress - several times in a row,
@@ -147,6 +163,34 @@ def scenario(mode, selected, cut, ending):
         if not selected and mode == "active":
             recv_frames(sock, 1, 1.0)     # swallow the Select.req
         stream = H.frame(0, 0x0101, 1, 1, True, b"") + H.frame(0, 0x0102, 1, 13, True, b"\x01\x00") + H.frame(5, 0x0103, session=0xFFFF)
+        if ending == "reconnect-while-a-handler-is-busy":
+            # the application is busy with a message (0.8 s) when the peer closes and reconnects at once with Select.req as its
+            # first bytes: the endpoint may listen again only when the old link's disconnect handling - which has to wait
+            # for that handler - is done (seed C09-M; D29)
+            ep.proto.events.message_received += lambda _d: time.sleep(0.8)
+            sock.sendall(H.frame(0, 0x0901, 1, 1, True, b"") + stream[:cut])
+            time.sleep(0.1)
+            sock.close()
+            sock2 = None
+            t_end = time.time() + 5.0
+            while sock2 is None and time.time() < t_end:
+                try:
+                    sock2 = socket.create_connection(("127.0.0.1", ep.port), timeout=1.0)
+                except OSError:
+                    time.sleep(0.02)
+            if sock2 is None:
+                bad["accepts-new-connection"] = "no new connection within 5 s after the peer closed while a handler was busy"
+            else:
+                sock2.sendall(H.frame(stype=1, system=0x0902, session=0xFFFF))
+                fr = recv_frames(sock2, 1, 5.0)
+                if not fr or fr[0]["stype"] != 2 or fr[0]["system"] != 0x0902:
+                    bad["selects-again"] = f"Select.req sent at once on the new connection was not answered ({fr}, state {ep.state()})"
+            ok, _ = with_timeout(ep.proto.disable, 8.0)
+            if not ok:
+                bad["disable-returns"] = f"disable() did not return within 8 s (after {ending}, state {ep.state()})"
+            if sock2 is not None:
+                sock2.close()
+            return bad
         if ending == "peer-stops-reading":
             # the peer stops sending (at this byte position) and does not read either while the endpoint is sending a large
             # message: the writer waits for a socket that never becomes writable.  A local disable() must still return and the
@@ -304,6 +348,10 @@ def bnd_cuts(tier, seed):
                     jobs.append((mode, selected, cut, "connect-and-close-at-once"))
                 if selected and cut in (0, 14):
                     jobs.append((mode, selected, cut, "peer-stops-reading"))
+                if not selected and cut == 0:
+                    jobs.append((mode, selected, cut, "disable-during-connected-handler"))
+                if mode == "passive" and selected and cut in (0, 5):
+                    jobs.append((mode, selected, cut, "reconnect-while-a-handler-is-busy"))
     n_eval = 0
     distinct = set()
     suspects = []
